@@ -265,3 +265,17 @@ def c06_lift_scope_else_branch(sig, case):
     # the cursor sits directly in an else-branch and was forwarded to an if that (transitively) owns that
     # branch: a proper prefix of its own path
     return len(fwd) < len(path) and path[: len(fwd)] == fwd
+
+
+def c06_block_over_fissioned_loop(sig, case):
+    """fission: a block cursor that contains the loop being split is forwarded to a block that ends
+    with the first of the two loops; statements that went into the second loop (identity-shared
+    with the old tree) are no longer members of the forwarded block"""
+    if sig.get("monitor") != "forward" or sig.get("kind") != "block_lost_member":
+        return False
+    steps = (case or {}).get("steps") or []
+    frm, to = (case or {}).get("from"), (case or {}).get("to")
+    if frm is None or to is None:
+        return sig.get("op") in ("fission", "autofission")
+    span = [s.get("op") for s in steps[frm:to]]
+    return any(o in ("fission", "autofission", "std.fission_into_singles", "std.hoist_from_loop") for o in span)
